@@ -228,7 +228,8 @@ def main(tier, seed):
                        'syntax (the hypotheses of the property)',
                        'the parser is exercised through parse_comment_blocks / parse_comment_block; the C lexer that extracts comments from '
                        'source files is not available here']
-    ck.prove(['gen_c10.py'], models=['Model/C10.vo', 'Model/C11.vo'])
+    ck.prove(['gen_c10.py', 'gen_unicode.py', 'gen_c10b.py', 'gen_c10v.py'],
+             models=['Model/C10.vo', 'Model/C11.vo', 'Model/C10B.vo', 'Model/C10BEq.vo', 'Model/C10V.vo'])
     sys.path.insert(0, REPO)
     from giscanner import message
     from giscanner.annotationparser import GtkDocCommentBlockParser
@@ -386,6 +387,23 @@ def main(tier, seed):
         if len(diags) != logger.get_warning_count():
             ck.failing_input('the warning count differs from the number of diagnostics written', case,
                              detail=dict(written=len(diags), counted=logger.get_warning_count()))
+    # ---- (4) the whole parser against the block-level model (exceptions, blocks, every diagnostic with line, column and quoted
+    # line, validate() included), on damaged blocks and on comments composed line by line; the crisp clauses are judged on
+    # every one of them directly
+    import c10b
+    rec = c10b.Recorder()
+    rng4 = random.Random(seed * 104729 + 11)
+    items = []
+    for i in range(150 if tier == 'quick' else 3000):
+        t = mutate(rng4, c10.make_block_text(rng4, c10.gen_block(rng4, 500000 + i), lay))
+        items.append((t, rng4.choice([1, 17, 4000]), 'model:damaged block'))
+    for i in range(600 if tier == 'quick' else 12000):
+        items.append((c10b.wild_block_text(rng4), rng4.choice([1, 17, 4000]), 'model:line soup'))
+    # the shape of known finding C11-K2 (text in front of the end token) is always among them
+    items.append(('/**\n * foo_fn:\n   * @p: (skip */', 10, 'model:text before the end token'))
+    items.append(('/**\n * foo_fn:\n * @p: (skip) x */ code', 10, 'model:text before the end token'))
+    c10b.correspondence(ck, 'C11B_cases', items, parser, rec)
+    parser = GtkDocCommentBlockParser()
     deprecated_tag_clauses(ck, rng, parser, message, 40 if tier == 'quick' else 600)
     bare_annotation_clauses(ck, rng, parser, message)
     scanner_main_clauses(ck, rng, tier)
